@@ -5,6 +5,8 @@ from mc import core, det, xstate
 PROPERTY = 'C20'
 ENGINE = 'E2 explicit-state BFS to fixpoint over the real persistent dictionaries (canonical state = ordered items + closed flag) + all histories up to depth k without dedup'
 LEVEL = 'model_checking'
+DIRECTED_ADDITIONS = 'from_dict independence, memoryview in the refused family, one scripted scale history per class (KiB values, hundreds of keys, six reopen / sync points)'      # members added during the seeded-change campaign (DESIGN 7); counted under their own vacuity counters
+
 
 KEYS = [b'k1', b'k2', b'\x00', b'']
 VALS = {'v1': b'one', 'v2': b'', 'v3': bytearray(b'\x03\x00'), 'str': 'text', 'int': 5, 'none': None, 'list': [b'x'], 'mview': memoryview(b'mv')}
@@ -12,6 +14,12 @@ GOOD = ('v1', 'v2', 'v3')
 
 
 def describe(tier):
+    d = _describe(tier)
+    d['rule'] = d['rule'] + ' Directed additions: ' + DIRECTED_ADDITIONS + '.'
+    return d
+
+
+def _describe(tier):
     nk = 3 if tier == 'quick' else 4
     return {
         'rule': 'state = history; canon = (ordered tuple of model items, closed flag). BFS to fixpoint over a universe of %d keys and 3 '
